@@ -81,7 +81,8 @@ def gen(rng, op: str) -> ops.OpCase:
     if op == "embedding":
         vocab, dim = rng.choice([5, 7, 11, 13]), rng.choice([2, 3, 5])
         idx_shape = tuple(rng.choice([2, 3, 5]) for _ in range(rng.randint(1, 3)))
-        return ops.OpCase(op, {"padding_idx": None, "max_norm": None, "idx_shape": idx_shape, "vocab": vocab},
+        return ops.OpCase(op, {"padding_idx": rng.choice([None, None, 0, vocab - 1, -1, -2]), "max_norm": None,
+                               "idx_shape": idx_shape, "vocab": vocab},
                           {"weight": (vocab, dim)}, ["weight"])
     if op == "dropout":
         return ops.OpCase(op, {"p": rng.choice([0.1, 0.25, 0.5, 0.9, rng.uniform(0.01, 0.99)]), "training": True},
@@ -95,6 +96,11 @@ def gen(rng, op: str) -> ops.OpCase:
         shapes = {"input": shape, "weight": shape[-nn_:]}
         if op == "layer_norm":
             shapes["bias"] = shape[-nn_:]
+            form = rng.choice(["gain+bias", "gain+bias", "gain only", "bias only"])
+            if form == "gain only":
+                del shapes["bias"]
+            elif form == "bias only":
+                del shapes["weight"]           # F.layer_norm(x, shape, None, b)
         return ops.OpCase(op, {"normalized_shape": shape[-nn_:], "eps": 1e-12}, shapes, list(shapes))
     raise KeyError(op)
 
